@@ -83,8 +83,15 @@ def judge(ctx, rows, monitor, monitor_cfg, conf, conf_cfg, name):
 
         def conformance():
             try:
-                box["c"] = ctx.tlc(SPEC, conf_cfg, module=conf, dfs=True, files={"trace.ndjson": f}, timeout=2400, heap="12g",
-                                   expect_fail=True, name="%s-conf%d" % (name, k))
+                for attempt in (1, 2):
+                    c = ctx.tlc(SPEC, conf_cfg, module=conf, dfs=True, files={"trace.ndjson": f}, timeout=2400, heap="8g",
+                                expect_fail=True, name="%s-conf%d-%d" % (name, k, attempt))
+                    if c.finished or c.violated or c.error:
+                        break
+                    ctx.log("conformance TLC run ended without a result (exit %s), retrying" % c.exit)
+                else:
+                    raise vlib.Infra("conformance TLC run ended twice without a result:\n" + c.out[-1500:])
+                box["c"] = c
             except Exception as ex:          # re-raised in the main thread
                 box["err"] = ex
         th = None
@@ -92,7 +99,7 @@ def judge(ctx, rows, monitor, monitor_cfg, conf, conf_cfg, name):
             th = threading.Thread(target=conformance)
             th.start()
         try:
-            mon = ctx.tlc(SPEC, monitor_cfg, module=monitor, dfs=True, files={"trace.ndjson": f}, timeout=2400, heap="12g",
+            mon = ctx.tlc(SPEC, monitor_cfg, module=monitor, dfs=True, files={"trace.ndjson": f}, timeout=2400, heap="8g",
                           name="%s-mon%d" % (name, k))
         finally:
             if th:
@@ -269,6 +276,9 @@ def run_stash(ctx, pid):
         "mcA": lambda: ctx.tlc_must_hold(SPEC, "MC_Stash.cfg" if quick else "MC_Stash_t.cfg", module="MC_Stash", timeout=1700,
                                          deadlock_check=False),
         "exhA": lambda: gen_behaviours(ctx, "Gen_Stash", "Gen_Stash.cfg" if quick else "Gen_Stash_t.cfg"),
+        # the non-default main mailboxes (bounded, NonBlockingBounded ring, stable priority; thorough also segmented) get
+        # every history one step shorter, stash buffer on
+        "exhK": lambda: gen_behaviours(ctx, "Gen_Stash", "GenK_Stash.cfg" if quick else "GenK_Stash_t.cfg"),
         "simA": lambda: gen_behaviours(ctx, "Gen_Stash", "Sim_Stash.cfg", simulate="num=%d" % (150 if quick else 3000)),
         "mcB": lambda: ctx.tlc_must_hold(SPEC, "MC_ReStash.cfg" if quick else "MC_ReStash_t.cfg", module="MC_ReStash", timeout=1700,
                                          deadlock_check=False),
@@ -279,7 +289,7 @@ def run_stash(ctx, pid):
     ctx.log("design A (Stash/Unstash/UnstashAll): %d distinct states; no loss / duplication / reordering" % g["mcA"].distinct)
     ctx.log("design B (StashNonReentrant, dispatchOne / deregisterRequestState): %d distinct states; no loss / duplication, stash order, "
             "exclusion" % g["mcB"].distinct)
-    exh, sim, exh2, sim2 = g["exhA"], g["simA"], g["exhB"], g["simB"]
+    exh, sim, exh2, sim2 = g["exhA"] + g["exhK"], g["simA"], g["exhB"], g["simB"]
     if min(len(exh), len(exh2)) < 1000 or min(len(sim), len(sim2)) < 100:
         raise vlib.Infra("behaviour generation produced too little (%d/%d exhaustive, %d/%d random)" % (len(exh), len(exh2), len(sim), len(sim2)))
     behaviours, beh2 = exh + sim, exh2 + sim2
@@ -317,7 +327,9 @@ def run_stash(ctx, pid):
                    ([ops_of(beh2[len(exh2) // 2]), ops_of(beh2[-1])] if beh2 else []),
         "evaluations": nb, "distinct_nontrivial": len(distinct),
         "rule": "A: every step history of length D over {Send, Deliver, Stash, Unstash, UnstashAll} allowed by Stash.tla, with and without "
-                "a stash buffer (TLC BFS), plus TLC random walks; each executed on a fresh real actor (messages sent by Tell, Ask and "
+                "a stash buffer (TLC BFS), on the default UnboundedMailbox and (length D-1, 3 messages, stash buffer on) on BoundedMailbox, "
+                "NonBlockingBoundedMailbox, UnboundedStablePriorityMailbox (thorough also UnboundedSegmentedMailbox) as main mailbox, plus TLC "
+                "random walks over all five kinds; each executed on a fresh real actor (messages sent by Tell, Ask and "
                 "Tell-from-an-actor in turn) and followed by an epilogue that drains the mailbox, releases the whole stash and drains again; "
                 "non-trivial = actor has a stash buffer and the history contains a Stash and an Unstash/UnstashAll. "
                 "B: every step history of length D over {Send, Request(StashNonReentrant), Respond(rq), Finish} allowed by ReStash.tla plus random "
@@ -326,6 +338,8 @@ def run_stash(ctx, pid):
         "exhaustive": True, "exhaustive_histories": len(exh) + len(exh2), "random_walks": len(sim) + len(sim2),
         "events_validated": len(rows) + len(rows2),
         "A_behaviours": stats["behaviours"], "B_behaviours": stats2["behaviours"],
+        "A_behaviours_by_mailbox_kind": {k: sum(1 for b in behaviours if b[0].get("kind", "unbounded") == k)
+                                         for k in sorted({b[0].get("kind", "unbounded") for b in behaviours})},
         "successful_release_calls": released,
         "requests_completed": sum(1 for r in rows2 if r["op"] == "Respond"),
         "ask_anomalies": stats["anomalies"] + stats2["anomalies"],
@@ -333,7 +347,8 @@ def run_stash(ctx, pid):
     }
     assumptions = [
         "one sender thread (the driver); Unstash/UnstashAll run inside the handler, so no foreign enqueue interleaves with the "
-        "re-enqueue loop of unstashAll; default UnboundedMailbox as main mailbox",
+        "re-enqueue loop of unstashAll; main mailbox kinds: unbounded (default), bounded, non-blocking ring, stable priority with a constant priority, segmented "
+        "(all FIFO for one sender); the fair and the unstable priority mailboxes are not FIFO for this traffic and are left out",
         "a message is stashed at most once per delivery (a handler that calls Stash twice duplicates the message by construction)",
         "released messages re-enter at the mailbox TAIL (what the code does; the property speaks about stash order only): messages already "
         "waiting in the mailbox are handled before the released ones, see docs/stackstash.md",
